@@ -183,12 +183,22 @@ def _d2(chk, fb):
                 else:
                     chk.unknown("D2", f.key, "copy-stores", f.loc(), "no insertion into ranges_ recognised in the copy function")
                 continue
+            li_ = local_inits(f)
             for n in pbs:
                 a = strip(f.args(n)[-1])
+                hops = 0
+                while a["k"] == "DeclRefExpr" and a["decl"]["kind"] == "local" and a["decl"]["id"] in li_ and hops < 3:
+                    a = strip(li_[a["decl"]["id"]])      # a named pointer holding the clone
+                    hops += 1
+                src_ = f.params[0]["name"] if f.params else None
                 if is_call(a) and a["callee"]["name"] == "clone":
                     chk.proved("D2", f.key, "clone-stored", f.loc(n), "stores %s" % render(a))
-                else:
+                elif any(is_call(x) and x["callee"]["name"] == "clone" for x in walk(a)) or a["k"] == "CXXNewExpr":
+                    chk.proved("D2", f.key, "clone-stored", f.loc(n), "stores a new object (%s)" % render(a)[:50])
+                elif src_ and src_ in render(a) or (a["k"] == "DeclRefExpr" and any(a["decl"]["id"] == v_ for v_ in e1.rangefor_vars(f))) or (a["k"] == "UnaryOperator" and a["op"] == "*"):
                     chk.refuted("D2", f.key, "clone-stored", f.loc(n), "copy stores '%s' (the source's own pointer) instead of a clone()" % render(a))
+                else:
+                    chk.unknown("D2", f.key, "clone-stored", f.loc(n), "what is stored ('%s') is not traced to the source or to a clone" % render(a)[:50])
             if f.name == "operator=":
                 cfg = f.cfg
                 clears = e1.blocks_with(cfg, lambda n: is_call(n) and n["callee"]["name"] in ("clear_", "clear") and (("obj" not in n) or render(f.obj(n)) in ("this", "ranges_")))
@@ -244,11 +254,21 @@ def _d3(chk, fb):
                 chk.proved("D3", f.key, "clean-after-mutation", f.loc(), "%d mutation sites, all followed by clean_() on every path" % len(muts))
         chk.floor("D3", "mutating members of " + cls, n_mut, 2)
         # clean_ sorts with the range comparator and erases exactly the empties
-        sorts = [n for n in clean.calls() if n["callee"]["qname"] == "std::sort"]
+        # clean_ may delegate its two halves to private members of the class: they are analysed as part of it
+        unit = [clean]
+        for g_ in list(unit):
+            for c_ in g_.calls():
+                if c_["callee"].get("inrepo") and ("obj" not in c_ or strip(g_.obj(c_))["k"] == "CXXThisExpr"):
+                    for t_ in fb.targets(c_, static_type_only=True):
+                        if t_.body is not None and t_.cls == cls and t_.key not in {u.key for u in unit} and len(unit) < 6:
+                            unit.append(t_)
+        sorts_by = [(g_, n) for g_ in unit for n in g_.calls() if n["callee"]["qname"] == "std::sort"]
+        sorts = [n for _, n in sorts_by]
         ok_sort = False
         for s in sorts:
-            a = [render(x) for x in clean.args(s)]
-            if len(a) == 3 and a[0] == "ranges_.begin()" and a[1] == "ranges_.end()" and "rangeComp_" in (clean.args(s)[2].get("ty") or ""):
+            gs_ = [g_ for g_, n_ in sorts_by if n_ is s][0]
+            a = [render(x) for x in gs_.args(s)]
+            if len(a) == 3 and a[0] == "ranges_.begin()" and a[1] == "ranges_.end()" and "rangeComp_" in (gs_.args(s)[2].get("ty") or ""):
                 ok_sort = True
         if ok_sort:
             chk.proved("D3", clean.key, "sorts", clean.loc(), "std::sort(ranges_.begin(), ranges_.end(), rangeComp_)")
@@ -257,39 +277,43 @@ def _d3(chk, fb):
         else:
             # a hand-written ordering pass cannot be judged by this rule: neither pass nor violation
             chk.fail_broken("anchor vanished: %s no longer orders ranges_ through std::sort; the canonical-order clause (D3) must be re-examined" % clean.key)
-        cfg = clean.cfg
-        erases = [n for n in clean.calls() if n["callee"]["name"] == "erase" and "obj" in n and render(clean.obj(n)) == "ranges_"]
+        # the half that removes the empties: clean_ itself or the helper it delegates to
+        def _has_loop(g_):
+            return any(x["k"] in ("ForStmt", "WhileStmt", "DoStmt", "CXXForRangeStmt") for x in g_.all_nodes()) or any(x["callee"]["name"] in ("remove_if",) for x in g_.calls())
+        clean_e = clean if _has_loop(clean) else next((g_ for g_ in unit[1:] if _has_loop(g_) and any(x["callee"]["name"] == "erase" or x["callee"].get("inrepo") for x in g_.calls())), clean)
+        cfg = clean_e.cfg
+        erases = [n for n in clean_e.calls() if n["callee"]["name"] == "erase" and "obj" in n and render(clean_e.obj(n)) == "ranges_"]
         # a helper member that erases the position it is given from ranges_ erases at its call site
-        for n in clean.calls():
-            if n["callee"]["name"] != "erase" and ("obj" not in n or strip(clean.obj(n))["k"] == "CXXThisExpr") and clean.args(n):
+        for n in clean_e.calls():
+            if n["callee"]["name"] != "erase" and ("obj" not in n or strip(clean_e.obj(n))["k"] == "CXXThisExpr") and clean_e.args(n):
                 for t in fb.targets(n, static_type_only=True):
-                    if t.key != clean.key and t.body is not None and t.cls == cls and any(
+                    if t.key != clean_e.key and t.body is not None and t.cls == cls and any(
                             x["callee"]["name"] == "erase" and "obj" in x and render(t.obj(x)) == "ranges_" and t.args(x) and render(t.args(x)[0]) in {p_["name"] for p_ in t.params}
                             for x in t.calls()):
                         erases.append(n)
         if not erases:
-            chk.refuted("D3", clean.key, "removes-empties", clean.loc(), "clean_() no longer removes empty ranges")
+            chk.refuted("D3", clean_e.key, "removes-empties", clean_e.loc(), "clean_() no longer removes empty ranges")
         for e in erases:
-            a0 = strip(clean.args(e)[0]) if clean.args(e) else None
-            if a0 is not None and is_call(a0) and a0["callee"]["name"] in ("remove_if",) and len(clean.args(a0)) == 3:
+            a0 = strip(clean_e.args(e)[0]) if clean_e.args(e) else None
+            if a0 is not None and is_call(a0) and a0["callee"]["name"] in ("remove_if",) and len(clean_e.args(a0)) == 3:
                 # erase-remove idiom: the predicate decides; it must be an emptiness test
-                pred = strip(clean.args(a0)[2])
-                ptxt = render(pred, local_inits(clean))
-                lam = [x for x in walk(pred)] + [x for d_ in clean.all_nodes() if d_["k"] == "DeclStmt" for dd in d_["decls"] if pred["k"] == "DeclRefExpr" and dd["id"] == pred["decl"]["id"] and dd.get("init") is not None for x in walk(dd["init"])]
+                pred = strip(clean_e.args(a0)[2])
+                ptxt = render(pred, local_inits(clean_e))
+                lam = [x for x in walk(pred)] + [x for d_ in clean_e.all_nodes() if d_["k"] == "DeclStmt" for dd in d_["decls"] if pred["k"] == "DeclRefExpr" and dd["id"] == pred["decl"]["id"] and dd.get("init") is not None for x in walk(dd["init"])]
                 if any(is_call(x) and x["callee"]["name"] == "isEmpty" for x in lam):
-                    chk.proved("D3", clean.key, "removes-empties", clean.loc(e), "erase(remove_if(.., predicate testing isEmpty()), end())")
+                    chk.proved("D3", clean_e.key, "removes-empties", clean_e.loc(e), "erase(remove_if(.., predicate testing isEmpty()), end())")
                 else:
-                    chk.unknown("D3", clean.key, "removes-empties", clean.loc(e), "erase-remove with a predicate that could not be read")
+                    chk.unknown("D3", clean_e.key, "removes-empties", clean_e.loc(e), "erase-remove with a predicate that could not be read")
                 continue
             ok, path = e1.guarded_by(cfg, cfg.stmt_block(e), lambda facts: any(is_call(nd) and nd["callee"]["name"] == "isEmpty" and tr for _, tr, nd in facts))
             # and the loop must visit every element: a non-erasing path increments the iterator
             if ok:
-                chk.proved("D3", clean.key, "removes-empties", clean.loc(e), "erase guarded by isEmpty()")
+                chk.proved("D3", clean_e.key, "removes-empties", clean_e.loc(e), "erase guarded by isEmpty()")
             else:
-                chk.refuted("D3", clean.key, "removes-empties", clean.loc(e), "erase in clean_() is not restricted to empty ranges")
+                chk.refuted("D3", clean_e.key, "removes-empties", clean_e.loc(e), "erase in clean_() is not restricted to empty ranges")
         # every empty must be erased: the isEmpty-true edge leads to the erase
         loops = e1.natural_loops(cfg)
-        idioms = [e for e in erases if clean.args(e) and is_call(strip(clean.args(e)[0])) and strip(clean.args(e)[0])["callee"]["name"] == "remove_if"]
+        idioms = [e for e in erases if clean_e.args(e) and is_call(strip(clean_e.args(e)[0])) and strip(clean_e.args(e)[0])["callee"]["name"] == "remove_if"]
         chk.floor("D3", "loops / erase-remove idioms in clean_", len(loops) + len(idioms), 1)
     # RangeSet: addRange filters empties; restrictTo erases empties after slicing
     for T in TYPES:
